@@ -200,7 +200,12 @@ def classify(group, json_path, out, rc, cmd, dt):
             if status == "failure":
                 rec = {"description": desc, "function": fn, "category": cat,
                        "location": "%s:%s" % (c.get("location", {}).get("file", ""), c.get("location", {}).get("line", ""))}
-                if cat in ("unwind", "unsupported_construct") or UNDECIDED_PATTERNS.search(desc):
+                locfile = c.get("location", {}).get("file", "") or ""
+                if locfile.endswith("kani_lib.c") or cat == "precondition_instance":
+                    # allocator-model preconditions inside Kani's C library: not a statement about
+                    # the (safe) Rust code under contract -> tool limit, never a violation
+                    undecided_reason = "tool: %s in %s" % (desc[:120], locfile[-40:])
+                elif cat in ("unwind", "unsupported_construct") or UNDECIDED_PATTERNS.search(desc):
                     undecided_reason = "%s: %s" % (cat or "tool", desc[:200])
                 else:
                     failed.append(rec)
